@@ -847,6 +847,7 @@ def _run_agg(case, out):
   import tensorflow as tf
   import tensorflow_lattice as tfl
   import tf_keras as keras
+  keras.backend.clear_session()   # functional models accumulate global state
   rs = np.random.RandomState(case["aux"])
   sizes, lengths, kind = case["sizes"], case["lengths"], case["kind"]
   d, b, total = len(sizes), len(lengths), int(sum(lengths))
